@@ -42,6 +42,7 @@ package jmespath
 //@   ensures {C08,C05} [bounds-pos] err == nil && result[2] > 0 ==> 0 <= result[0] && result[0] <= length && 0 <= result[1] && result[1] <= length
 //@   ensures {C08,C05} [bounds-neg] err == nil && result[2] < 0 ==> -1 <= result[0] && result[0] <= length-1 && -1 <= result[1] && result[1] <= length-1
 //@   assigns \nothing
+//@   ensures {C17} [not-a-syntax-error] !isSyntaxError(err)
 
 //@ func slice
 //@   props C05,C08
@@ -51,6 +52,7 @@ package jmespath
 //@   ensures {C16} [non-nil-result] err == nil ==> !isNil(result)
 //@   ensures {C16} [elements-come-from-input] err == nil && allJSON(slice, len(slice)) ==> allJSON(result, len(result))
 //@   assigns \nothing
+//@   ensures {C17} [not-a-syntax-error] !isSyntaxError(err)
 //@   loop 1 invariant [json] allJSON(slice, len(slice)) ==> allJSON(result, len(result))
 //@   loop 2 invariant [json] allJSON(slice, len(slice)) ==> allJSON(result, len(result))
 //@   loop 1 invariant [walk] !isNil(result) && 0 <= i && stop <= len(slice) && step > 0 && specWalkUp(slice, i, stop, step, result) == specWalkUp(slice, start, stop, step, specEmptyList())
@@ -257,6 +259,7 @@ package jmespath
 //@   assigns Parser.index
 //@   ensures [cursor] err == nil ==> PI(p) && p.index > old(p.index)
 //@   ensures [cursor-on-error] p.index >= old(p.index)
+//@   ensures {C04,C05} [well-formed-ast] err == nil ==> wfNode(result)
 //@   ensures {C04} [never-an-empty-node] err == nil ==> result.nodeType != ASTEmpty
 //@   ensures {C17} [error-location] parseErrOK(p, err)
 //@   ensures {C08} [slice-node] err == nil ==> result.nodeType == ASTSlice && isIntPtrs(result.value) && nkids(result) == 0
@@ -269,6 +272,7 @@ package jmespath
 //@   assigns Parser.index
 //@   ensures [cursor] err == nil ==> PI(p) && p.index > old(p.index)
 //@   ensures [cursor-on-error] p.index >= old(p.index)
+//@   ensures {C04,C05} [well-formed-ast] err == nil ==> wfNode(result)
 //@   ensures {C04} [never-an-empty-node] err == nil ==> result.nodeType != ASTEmpty
 //@   ensures {C17} [error-location] parseErrOK(p, err)
 //@   ensures [node] err == nil ==> (result.nodeType == ASTSlice && isIntPtrs(result.value) || result.nodeType == ASTIndex && isInt(result.value)) && nkids(result) == 0
@@ -280,9 +284,10 @@ package jmespath
 //@   decreases len(p.tokens) - p.index
 //@   decreases 0
 //@   ensures [cursor] err == nil ==> PI(p) && p.index > old(p.index)
+//@   ensures {C04,C05} [well-formed-ast] err == nil ==> wfNode(result)
 //@   ensures {C04} [never-an-empty-node] err == nil ==> result.nodeType != ASTEmpty
 //@   ensures {C17} [error-location] parseErrOK(p, err)
-//@   loop 1 invariant PI(p) && p.index > old(p.index) && currentToken == p.tokens[p.index].tokenType && leftNode.nodeType != ASTEmpty
+//@   loop 1 invariant PI(p) && p.index > old(p.index) && currentToken == p.tokens[p.index].tokenType && leftNode.nodeType != ASTEmpty && wfNode(leftNode) && p.index >= 1 + old(p.index)
 //@   loop 1 decreases len(p.tokens) - p.index
 
 //@ func (*Parser).nud
@@ -292,20 +297,32 @@ package jmespath
 //@   decreases len(p.tokens) - p.index
 //@   decreases 4
 //@   ensures [cursor] err == nil ==> PI(p) && p.index >= old(p.index)
+//@   ensures {C04,C05} [well-formed-ast] err == nil ==> wfNode(result)
 //@   ensures {C04} [never-an-empty-node] err == nil ==> result.nodeType != ASTEmpty
 //@   ensures {C17} [error-location] parseErrOK(p, err)
 
 //@ func (*Parser).led
 //@   props C05
-//@   requires PI(p) && 1 <= p.index && tokenType == p.tokens[p.index-1].tokenType
+//@   requires PI(p) && 2 <= p.index && tokenType == p.tokens[p.index-1].tokenType && wfNode(node)
 //@   assigns Parser.index
 //@   decreases len(p.tokens) - p.index
 //@   decreases 4
 //@   ensures [cursor] err == nil ==> PI(p) && p.index >= old(p.index)
+//@   ensures {C04,C05} [well-formed-ast] err == nil ==> wfNode(result)
 //@   ensures {C04} [never-an-empty-node] err == nil ==> result.nodeType != ASTEmpty
 //@   ensures {C17} [error-location] parseErrOK(p, err)
-//@   loop 1 invariant PI(p) && p.index >= old(p.index)
+//@   loop 1 invariant PI(p) && p.index >= old(p.index) && (forall j int :: 0 <= j && j < len(args) ==> wfArg(args[j]))
 //@   loop 1 decreases len(p.tokens) - p.index
+
+//@ func (*Parser).parseFunctionArg
+//@   props C05
+//@   requires PI(p)
+//@   assigns Parser.index
+//@   decreases len(p.tokens) - p.index
+//@   decreases 1
+//@   ensures [cursor] err == nil ==> PI(p) && p.index > old(p.index)
+//@   ensures {C04,C05} [well-formed-argument] err == nil ==> wfArg(result)
+//@   ensures {C17} [error-location] parseErrOK(p, err)
 
 //@ func (*Parser).parseMultiSelectList
 //@   props C05
@@ -314,9 +331,10 @@ package jmespath
 //@   decreases len(p.tokens) - p.index
 //@   decreases 1
 //@   ensures [cursor] err == nil ==> PI(p) && p.index > old(p.index)
+//@   ensures {C04,C05} [well-formed-ast] err == nil ==> wfNode(result)
 //@   ensures {C04} [never-an-empty-node] err == nil ==> result.nodeType != ASTEmpty
 //@   ensures {C17} [error-location] parseErrOK(p, err)
-//@   loop 1 invariant PI(p) && p.index >= old(p.index)
+//@   loop 1 invariant PI(p) && p.index >= old(p.index) && (forall j int :: 0 <= j && j < len(expressions) ==> wfNode(expressions[j]))
 //@   loop 1 decreases len(p.tokens) - p.index
 
 //@ func (*Parser).parseMultiSelectHash
@@ -326,28 +344,31 @@ package jmespath
 //@   decreases len(p.tokens) - p.index
 //@   decreases 1
 //@   ensures [cursor] err == nil ==> PI(p) && p.index > old(p.index)
+//@   ensures {C04,C05} [well-formed-ast] err == nil ==> wfNode(result)
 //@   ensures {C04} [never-an-empty-node] err == nil ==> result.nodeType != ASTEmpty
 //@   ensures {C17} [error-location] parseErrOK(p, err)
-//@   loop 1 invariant PI(p) && p.index >= old(p.index)
+//@   loop 1 invariant PI(p) && p.index >= old(p.index) && (forall j int :: 0 <= j && j < len(children) ==> wfNode(children[j]) && children[j].nodeType == ASTKeyValPair)
 //@   loop 1 decreases len(p.tokens) - p.index
 
 //@ func (*Parser).projectIfSlice
 //@   props C05
-//@   requires PI(p)
+//@   requires PI(p) && wfNode(left) && wfNode(right)
 //@   assigns Parser.index
 //@   decreases len(p.tokens) - p.index
 //@   decreases 3
 //@   ensures [cursor] err == nil ==> PI(p) && p.index >= old(p.index)
+//@   ensures {C04,C05} [well-formed-ast] err == nil ==> wfNode(result)
 //@   ensures {C04} [never-an-empty-node] err == nil ==> result.nodeType != ASTEmpty
 //@   ensures {C17} [error-location] parseErrOK(p, err)
 
 //@ func (*Parser).parseFilter
 //@   props C05
-//@   requires PI(p)
+//@   requires PI(p) && wfNode(node)
 //@   assigns Parser.index
 //@   decreases len(p.tokens) - p.index
 //@   decreases 2
 //@   ensures [cursor] err == nil ==> PI(p) && p.index > old(p.index)
+//@   ensures {C04,C05} [well-formed-ast] err == nil ==> wfNode(result)
 //@   ensures {C04} [never-an-empty-node] err == nil ==> result.nodeType != ASTEmpty
 //@   ensures {C17} [error-location] parseErrOK(p, err)
 
@@ -358,6 +379,7 @@ package jmespath
 //@   decreases len(p.tokens) - p.index
 //@   decreases 1
 //@   ensures [cursor] err == nil ==> PI(p) && p.index > old(p.index)
+//@   ensures {C04,C05} [well-formed-ast] err == nil ==> wfNode(result)
 //@   ensures {C04} [never-an-empty-node] err == nil ==> result.nodeType != ASTEmpty
 //@   ensures {C17} [error-location] parseErrOK(p, err)
 
@@ -368,12 +390,14 @@ package jmespath
 //@   decreases len(p.tokens) - p.index
 //@   decreases 2
 //@   ensures [cursor] err == nil ==> PI(p) && p.index >= old(p.index)
+//@   ensures {C04,C05} [well-formed-ast] err == nil ==> wfNode(result)
 //@   ensures {C04} [never-an-empty-node] err == nil ==> result.nodeType != ASTEmpty
 //@   ensures {C17} [error-location] parseErrOK(p, err)
 
 //@ func (*Parser).Parse
 //@   props C05
 //@   assigns Parser.expression, Parser.index, Parser.tokens
+//@   ensures {C04,C05} [well-formed-ast] err == nil ==> wfNode(result)
 //@   ensures {C04} [never-an-empty-node] err == nil ==> result.nodeType != ASTEmpty
 //@   ensures {C17} [error-location] isSyntaxError(err) ==> err.Expression == expression && 0 <= err.Offset && err.Offset <= len(expression)
 
@@ -405,6 +429,7 @@ package jmespath
 //@   requires argsOK(arguments) && (forall j int :: 0 <= j && j < len(arguments) ==> (isExpRef(arguments[j]) ==> nodeRank(refOf(arguments[j])) < bound))
 //@   requires f.functionTable == theFunctionTable() && intr != nil && intr.fCall != nil && intr.fCall.functionTable == theFunctionTable()
 //@   assigns \nothing
+//@   ensures {C17} [not-a-syntax-error] !isSyntaxError(err)
 //@   decreases 4*bound + 2
 //@   call dyncall bound = bound
 //@   ensures {C16} [json-result] err == nil ==> specJSONVal(result)
@@ -415,6 +440,7 @@ package jmespath
 //@   props C05
 //@   requires specJSONVal(value)
 //@   assigns \nothing
+//@   ensures {C17} [not-a-syntax-error] !isSyntaxError(err)
 //@   ensures {C01} [json-has-no-struct-fields] result == nil && err == nil
 
 //@ func (*treeInterpreter).filterProjectionWithReflection
@@ -438,6 +464,7 @@ package jmespath
 //@   props C05
 //@   requires wfArg(node) && specJSONVal(value) && intr.fCall != nil && intr.fCall.functionTable == theFunctionTable()
 //@   assigns \nothing
+//@   ensures {C17} [not-a-syntax-error] !isSyntaxError(err)
 //@   decreases 4*nodeRank(node) + 3
 //@   call (*functionCaller).CallFunction bound = nodeRank(node)
 //@   ensures {C16} [json-result] err == nil ==> specResultOK(node, result)
@@ -471,6 +498,7 @@ package jmespath
 //@   props C05,C10
 //@   requires specArgOK(arg)
 //@   assigns \nothing
+//@   ensures {C17} [not-a-syntax-error] !isSyntaxError(err)
 //@   ensures {C10} [accepts-exactly-the-declared-types] (err == nil) <==> specTypeOK(a.types, 0, arg)
 //@   loop 1 invariant [continuation] 0 <= \k && \k <= len(a.types) && specTypeOK(a.types, \k, arg) == specTypeOK(a.types, 0, arg)
 //@   loop 1 decreases len(a.types) - \k
@@ -479,6 +507,7 @@ package jmespath
 //@   props C05,C10
 //@   requires argsOK(arguments)
 //@   assigns \nothing
+//@   ensures {C17} [not-a-syntax-error] !isSyntaxError(err)
 //@   ensures {C10} [arity-and-types] (err == nil) <==> specArgsOK(e.arguments, arguments)
 //@   ensures [arguments-returned] err == nil ==> same(result, arguments)
 //@   loop 1 invariant [continuation] 0 <= \k && \k <= len(e.arguments) && len(e.arguments) == len(arguments) && specArgsFrom(e.arguments, arguments, \k) == specArgsFrom(e.arguments, arguments, 0)
@@ -494,57 +523,68 @@ package jmespath
 //@   props C05,C10
 //@   requires len(arguments) == 1 && isNum(arguments[0]) && specJSONVal(arguments[0])
 //@   assigns \nothing
+//@   ensures {C17} [not-a-syntax-error] !isSyntaxError(err)
 //@   ensures {C16} err == nil && specJSONVal(result)
 //@   ensures {C09} [abs] isNum(result) && same(numOf(result), specAbs(numOf(arguments[0])))
 //@ func jpfCeil
 //@   props C05,C10
 //@   requires len(arguments) == 1 && isNum(arguments[0]) && specJSONVal(arguments[0])
 //@   assigns \nothing
+//@   ensures {C17} [not-a-syntax-error] !isSyntaxError(err)
 //@   ensures {C16} err == nil && specJSONVal(result)
 //@ func jpfFloor
 //@   props C05,C10
 //@   requires len(arguments) == 1 && isNum(arguments[0]) && specJSONVal(arguments[0])
 //@   assigns \nothing
+//@   ensures {C17} [not-a-syntax-error] !isSyntaxError(err)
 //@   ensures {C16} err == nil && specJSONVal(result)
 //@ func jpfLength
 //@   props C05,C10
 //@   requires len(arguments) == 1 && specJSONVal(arguments[0]) && (isStr(arguments[0]) || isArr(arguments[0]) || isObj(arguments[0]))
 //@   assigns \nothing
+//@   ensures {C17} [not-a-syntax-error] !isSyntaxError(err)
 //@   ensures {C16} err == nil && specJSONVal(result)
 //@ func jpfStartsWith
 //@   props C05,C10
 //@   requires len(arguments) == 2 && isStr(arguments[0]) && isStr(arguments[1])
 //@   assigns \nothing
+//@   ensures {C17} [not-a-syntax-error] !isSyntaxError(err)
 //@   ensures {C16} err == nil && specJSONVal(result)
 //@ func jpfEndsWith
 //@   props C05,C10
 //@   requires len(arguments) == 2 && isStr(arguments[0]) && isStr(arguments[1])
 //@   assigns \nothing
+//@   ensures {C17} [not-a-syntax-error] !isSyntaxError(err)
 //@   ensures {C16} err == nil && specJSONVal(result)
 //@ func jpfType
 //@   props C05,C10
 //@   requires len(arguments) == 1 && specJSONVal(arguments[0])
 //@   assigns \nothing
+//@   ensures {C17} [not-a-syntax-error] !isSyntaxError(err)
 //@   ensures {C16} err == nil && isStr(result)
 //@ func jpfToArray
 //@   props C05,C10
 //@   requires len(arguments) == 1 && specJSONVal(arguments[0])
 //@   assigns \nothing
+//@   ensures {C17} [not-a-syntax-error] !isSyntaxError(err)
 //@   ensures {C16} err == nil && specJSONVal(result) && isArr(result)
 //@ func jpfToString
 //@   props C05,C10
 //@   requires len(arguments) == 1 && specJSONVal(arguments[0])
 //@   assigns \nothing
+//@   ensures {C17} [not-a-syntax-error] !isSyntaxError(err)
 //@   ensures {C16} err == nil && isStr(result)
 //@ func jpfToNumber
 //@   props C05,C10
 //@   requires len(arguments) == 1 && specJSONVal(arguments[0])
 //@   assigns \nothing
+//@   ensures {C17} [not-a-syntax-error] !isSyntaxError(err)
 //@   ensures {C16} [finite-or-null] err == nil && specJSONVal(result) && (isNil(result) || isNum(result))
 //@ func jpfNotNull
 //@   props C05,C10
 //@   requires specArgsOK(theFunctionTable()["not_null"].arguments, arguments) && argsOK(arguments)
 //@   assigns \nothing
+//@   ensures {C17} [not-a-syntax-error] !isSyntaxError(err)
 //@   ensures {C16} err == nil && specJSONVal(result)
 //@   loop 1 invariant 0 <= \k && \k <= len(arguments) && specArgsFrom(theFunctionTable()["not_null"].arguments, arguments, \k)
 //@   loop 1 decreases len(arguments) - \k
@@ -553,6 +593,7 @@ package jmespath
 //@   props C05,C10
 //@   requires len(arguments) == 1 && allNum(arguments[0]) && specJSONVal(arguments[0])
 //@   assigns \nothing
+//@   ensures {C17} [not-a-syntax-error] !isSyntaxError(err)
 //@   ensures {C16,C09} [null-for-empty] err == nil && (arrLen(arguments[0]) == 0 ==> isNil(result))
 //@   assumes [moderate-magnitude] isNum(result) ==> specFinite(numOf(result))
 //@   ensures {C16} [json] specJSONVal(result)
@@ -563,6 +604,7 @@ package jmespath
 //@   props C05,C10
 //@   requires len(arguments) == 1 && allNum(arguments[0]) && specJSONVal(arguments[0])
 //@   assigns \nothing
+//@   ensures {C17} [not-a-syntax-error] !isSyntaxError(err)
 //@   assumes [moderate-magnitude] isNum(result) ==> specFinite(numOf(result))
 //@   ensures {C16} [json] err == nil && isNum(result) && specJSONVal(result)
 //@   loop 1 invariant 0 <= \k && \k <= len(items)
@@ -572,6 +614,7 @@ package jmespath
 //@   props C05,C10
 //@   requires len(arguments) == 2 && specJSONVal(arguments[0]) && specJSONVal(arguments[1]) && (isStr(arguments[0]) || isArr(arguments[0]))
 //@   assigns \nothing
+//@   ensures {C17} [not-a-syntax-error] !isSyntaxError(err)
 //@   ensures {C16} err == nil && isBool(result)
 //@   loop 1 invariant 0 <= \k && \k <= len(general)
 //@   loop 1 decreases len(general) - \k
@@ -580,6 +623,7 @@ package jmespath
 //@   props C05,C10
 //@   requires len(arguments) == 1 && isObj(arguments[0]) && specJSONVal(arguments[0])
 //@   assigns \nothing
+//@   ensures {C17} [not-a-syntax-error] !isSyntaxError(err)
 //@   ensures {C16} err == nil && specJSONVal(result) && isArr(result)
 //@   loop 1 invariant 0 <= \k && \k <= objSize(arguments[0]) && !isNil(collected) && allJSON(collected, len(collected))
 //@   loop 1 decreases objSize(arguments[0]) - \k
@@ -588,6 +632,7 @@ package jmespath
 //@   props C05,C10
 //@   requires len(arguments) == 1 && isObj(arguments[0]) && specJSONVal(arguments[0])
 //@   assigns \nothing
+//@   ensures {C17} [not-a-syntax-error] !isSyntaxError(err)
 //@   ensures {C16} err == nil && specJSONVal(result) && isArr(result)
 //@   loop 1 invariant 0 <= \k && \k <= objSize(arguments[0]) && !isNil(collected) && allJSON(collected, len(collected))
 //@   loop 1 decreases objSize(arguments[0]) - \k
@@ -596,6 +641,7 @@ package jmespath
 //@   props C05,C10
 //@   requires specArgsOK(theFunctionTable()["merge"].arguments, arguments) && argsOK(arguments)
 //@   assigns \nothing
+//@   ensures {C17} [not-a-syntax-error] !isSyntaxError(err)
 //@   ensures {C16} err == nil && specJSONVal(result) && isObj(result)
 //@   loop 1 invariant [outer] 0 <= \k && \k <= len(arguments) && specArgsFrom(theFunctionTable()["merge"].arguments, arguments, \k) && !isNil(final) && 0 <= len(final) && (forall k string :: mapHas(final, k) ==> specJSONVal(final[k]))
 //@   loop 1 decreases len(arguments) - \k
@@ -606,6 +652,7 @@ package jmespath
 //@   props C05,C10
 //@   requires len(arguments) == 2 && isStr(arguments[0]) && allStr(arguments[1])
 //@   assigns \nothing
+//@   ensures {C17} [not-a-syntax-error] !isSyntaxError(err)
 //@   ensures {C16} err == nil && isStr(result)
 //@   loop 1 invariant 0 <= \k && \k <= arrLen(arguments[1])
 //@   loop 1 decreases arrLen(arguments[1]) - \k
@@ -614,6 +661,7 @@ package jmespath
 //@   props C05,C10
 //@   requires len(arguments) == 1 && specJSONVal(arguments[0]) && (isStr(arguments[0]) || isArr(arguments[0]))
 //@   assigns \nothing
+//@   ensures {C17} [not-a-syntax-error] !isSyntaxError(err)
 //@   ensures {C16} err == nil && specJSONVal(result)
 //@   loop 1 invariant [runes] 0 <= i && i <= len(r) && j == len(r) - 1 - i
 //@   loop 1 decreases len(r) - i
@@ -624,6 +672,7 @@ package jmespath
 //@   props C05,C10
 //@   requires len(arguments) == 1 && specJSONVal(arguments[0]) && (allNum(arguments[0]) || allStr(arguments[0]))
 //@   assigns \nothing
+//@   ensures {C17} [not-a-syntax-error] !isSyntaxError(err)
 //@   ensures {C16} err == nil && specJSONVal(result)
 //@   loop 1 invariant 0 <= \k && \k <= len(items) - 1 && specFinite(best)
 //@   loop 1 decreases len(items) - 1 - \k
@@ -634,6 +683,7 @@ package jmespath
 //@   props C05,C10
 //@   requires len(arguments) == 1 && specJSONVal(arguments[0]) && (allNum(arguments[0]) || allStr(arguments[0]))
 //@   assigns \nothing
+//@   ensures {C17} [not-a-syntax-error] !isSyntaxError(err)
 //@   ensures {C16} err == nil && specJSONVal(result)
 //@   loop 1 invariant 0 <= \k && \k <= len(items) - 1 && specFinite(best)
 //@   loop 1 decreases len(items) - 1 - \k
@@ -644,6 +694,7 @@ package jmespath
 //@   props C05,C10
 //@   requires len(arguments) == 1 && specJSONVal(arguments[0]) && (allNum(arguments[0]) || allStr(arguments[0]))
 //@   assigns \nothing
+//@   ensures {C17} [not-a-syntax-error] !isSyntaxError(err)
 //@   ensures {C16} err == nil && specJSONVal(result) && isArr(result)
 //@   loop 1 invariant 0 <= \k && \k <= len(d) && (forall q int :: 0 <= q && q < len(d) ==> specFinite(d[q])) && (forall q int :: 0 <= q && q < \k ==> specJSONVal(final[q])) && (forall q int :: \k <= q && q < len(d) ==> isNil(final[q]))
 //@   loop 1 decreases len(d) - \k
@@ -687,6 +738,7 @@ package jmespath
 //@   decreases 4*bound + 1
 //@   requires len(arguments) == 3 && intrOK(arguments[0]) && isExpRef(arguments[1]) && wfNode(refOf(arguments[1])) && isArr(arguments[2]) && specJSONVal(arguments[2])
 //@   assigns \nothing
+//@   ensures {C17} [not-a-syntax-error] !isSyntaxError(err)
 //@   ensures {C16} err == nil ==> specJSONVal(result) && isArr(result)
 //@   loop 1 invariant 0 <= \k && \k <= len(arr) && !isNil(mapped) && allJSON(mapped, len(mapped))
 //@   loop 1 decreases len(arr) - \k
@@ -698,6 +750,7 @@ package jmespath
 //@   decreases 4*bound + 1
 //@   requires len(arguments) == 3 && intrOK(arguments[0]) && isArr(arguments[1]) && specJSONVal(arguments[1]) && isExpRef(arguments[2]) && wfNode(refOf(arguments[2]))
 //@   assigns \nothing
+//@   ensures {C17} [not-a-syntax-error] !isSyntaxError(err)
 //@   ensures {C16} err == nil ==> specJSONVal(result)
 //@   loop 1 invariant 0 <= \k && \k <= len(arr) - 1 && specJSONVal(bestItem)
 //@   loop 1 decreases len(arr) - 1 - \k
@@ -711,6 +764,7 @@ package jmespath
 //@   decreases 4*bound + 1
 //@   requires len(arguments) == 3 && intrOK(arguments[0]) && isArr(arguments[1]) && specJSONVal(arguments[1]) && isExpRef(arguments[2]) && wfNode(refOf(arguments[2]))
 //@   assigns \nothing
+//@   ensures {C17} [not-a-syntax-error] !isSyntaxError(err)
 //@   ensures {C16} err == nil ==> specJSONVal(result)
 //@   loop 1 invariant 0 <= \k && \k <= len(arr) - 1 && specJSONVal(bestItem)
 //@   loop 1 decreases len(arr) - 1 - \k
@@ -724,6 +778,7 @@ package jmespath
 //@   decreases 4*bound + 1
 //@   requires len(arguments) == 3 && intrOK(arguments[0]) && isArr(arguments[1]) && specJSONVal(arguments[1]) && isExpRef(arguments[2]) && wfNode(refOf(arguments[2]))
 //@   assigns \nothing
+//@   ensures {C17} [not-a-syntax-error] !isSyntaxError(err)
 //@   ensures {C16} err == nil ==> specJSONVal(result) && isArr(result)
 
 // ---------------------------------------------------------------------------
@@ -753,3 +808,13 @@ package jmespath
 //@   assigns \nothing
 //@   ensures {C16} [json-result] err == nil ==> specJSONVal(result)
 //@   ensures {C17} [error-location] isSyntaxError(err) ==> err.Expression == expression && 0 <= err.Offset && err.Offset <= len(expression)
+
+// ---------------------------------------------------------------------------
+// Lemmas over the spec functions (each proved once, without using any lemma)
+
+//@ lemma wfNode-implies-wfArg
+//@   props C05,C04,C16
+//@   var n Node
+//@   requires wfNode(n)
+//@   ensures wfArg(n)
+//@   trigger wfNode(n)
